@@ -17,7 +17,7 @@ import (
 func init() {
 	register(&Prop{
 		ID:          "C06",
-		Explanation: "Decides sanitiser dominance for redirect targets: every http.Redirect in production code is enumerated and classified; the post-login, sign-in and sign-out redirects and the error/sign-in page links take, on every path, either result #0 of AppDirector.GetRedirect, the constant \"/\", or a value for which IsValidRedirect(value)==true was established on that path; GetRedirect returns only \"/\" or a candidate for which IsValidRedirect was true; the login redirect is provider.GetLoginURL(...), every implementation of which returns the String() of makeLoginURL's copy of the configured LoginURL, whose only field store is RawQuery; IsValidRedirect answers true only on the relative branch (prefix '/', not '//', no match of the invalid-redirect regex — atoms over the input only) or with IsEndpointAllowed(url.Parse(redirect), allowedDomains)==true after an error-free parse; IsEndpointAllowed answers true only for a non-empty whitelist host accepted by isHostnameAllowed together with one of the three port conditions; isHostnameAllowed admits sub-domains only through a suffix test whose operand is known to begin with '.', otherwise only by equality with the entry's bare name; and the relative-branch acceptance language, extracted from the path atoms and the regex constant, is disjoint — on the complete set of strings up to length 5 over a 15-symbol adversarial alphabet — from the strings that http.Redirect's rewriting followed by browser normalisation (tab/CR/LF removal, backslash as slash) turns into a scheme-relative '//' target. Added during the build: in request-reachable code no store goes into a field of the url.URL behind ProviderData.LoginURL/RedeemURL/ProfileURL/ValidateURL (R6). Round 4: Azure's tenant override rewrites only an unset or built-in default endpoint, and the rd candidate is read from req.Form, which holds query and body (R7). Round 5: GetRequestURI returns the forwarded-URI header value or the request URI itself, never a cut or rewritten string (R8).",
+		Explanation: "Decides sanitiser dominance for redirect targets: every http.Redirect in production code is enumerated and classified; the post-login, sign-in and sign-out redirects and the error/sign-in page links take, on every path, either result #0 of AppDirector.GetRedirect, the constant \"/\", or a value for which IsValidRedirect(value)==true was established on that path; GetRedirect returns only \"/\" or a candidate for which IsValidRedirect was true; the login redirect is provider.GetLoginURL(...), every implementation of which returns the String() of makeLoginURL's copy of the configured LoginURL, whose only field store is RawQuery; IsValidRedirect answers true only on the relative branch (prefix '/', not '//', no match of the invalid-redirect regex — atoms over the input only) or with IsEndpointAllowed(url.Parse(redirect), allowedDomains)==true after an error-free parse; IsEndpointAllowed answers true only for a non-empty whitelist host accepted by isHostnameAllowed together with one of the three port conditions; isHostnameAllowed admits sub-domains only through a suffix test whose operand is known to begin with '.', otherwise only by equality with the entry's bare name; and the relative-branch acceptance language, extracted from the path atoms and the regex constant, is disjoint — on the complete set of strings up to length 5 over a 15-symbol adversarial alphabet — from the strings that http.Redirect's rewriting followed by browser normalisation (tab/CR/LF removal, backslash as slash) turns into a scheme-relative '//' target. Added during the build: in request-reachable code no store goes into a field of the url.URL behind ProviderData.LoginURL/RedeemURL/ProfileURL/ValidateURL (R6). Round 4: Azure's tenant override rewrites only an unset or built-in default endpoint, and the rd candidate is read from req.Form, which holds query and body (R7). Round 5: GetRequestURI returns the forwarded-URI header value or the request URI itself, never a cut or rewritten string (R8). Round 6: the sign-in and error pages embed the redirect target they are handed, unchanged (R9).",
 		NotDecided:  "parser differentials on absolute URLs between url.Parse and browsers; strings longer than the enumeration bound or outside its alphabet; 'lands byte for byte' (value round trip through state).",
 		Run:         runC06,
 	})
@@ -184,6 +184,8 @@ func runC06(c *Ctx) {
 	runC06R7(c, "R7-configured-endpoint-and-rd-source")
 	r.Rule("R8-requested-uri-verbatim", "the page the user asked for is taken verbatim: GetRequestURI returns the X-Forwarded-Uri header value or req.URL.RequestURI() itself, never a cut or rewritten string", 1)
 	runC06R8(c, "R8-requested-uri-verbatim")
+	r.Rule("R9-pages-keep-the-target", "the sign-in and error pages embed the redirect target they are handed, unchanged: every Redirect/RedirectURL of the page data is the caller's parameter (or option field) itself, or a constant", 3)
+	runC06R9(c, "R9-pages-keep-the-target")
 	runC06R5(c)
 }
 
@@ -914,5 +916,68 @@ func runC06R8(c *Ctx, rule string) {
 		c.R.OK(rule, key, c.P.Pos(getURI.Pos()), sprintf("%d return path(s): Header.Get(...) or URL.RequestURI(), unmodified", n))
 	} else if !bad {
 		c.R.Unknown(rule, key, c.P.Pos(getURI.Pos()), "no return path found")
+	}
+}
+
+// runC06R9: the target reaches the browser a second time through rendered pages — the sign-in page's hidden rd inputs,
+// the error page's "Go back"/"Sign in" forms — and comes back with the login form. The page writer is downstream of
+// validation and must not decide about targets on its own: every store into a field named Redirect or RedirectURL of
+// a struct built in pkg/app/pagewriter takes a parameter of the enclosing function, a load of the RedirectURL option
+// field, or a constant. A "harmless" substitution there (targets that look like proxy endpoints become "/") sends
+// users of /oauth2-docs/... to the front page after login.
+func runC06R9(c *Ctx, rule string) {
+	n := 0
+	for _, fn := range c.P.ModFns {
+		if prog.Short(prog.FnPkg(fn).Path()) != "pkg/app/pagewriter" {
+			continue
+		}
+		for _, b := range fn.Blocks {
+			for _, in := range b.Instrs {
+				st, ok := in.(*ssa.Store)
+				if !ok {
+					continue
+				}
+				fa, ok := st.Addr.(*ssa.FieldAddr)
+				if !ok {
+					continue
+				}
+				f := walk.FieldOf(fa.X.Type(), fa.Field)
+				if f == nil || (f.Name() != "Redirect" && f.Name() != "RedirectURL") {
+					continue
+				}
+				n++
+				key := "page-target|" + f.Name() + "|" + fnKey(fn)
+				v := unwrap0(st.Val)
+				okSrc := false
+				switch x := v.(type) {
+				case *ssa.Parameter, *ssa.Const:
+					okSrc = true
+				case *ssa.UnOp:
+					if ld, isF := x.X.(*ssa.FieldAddr); isF && x.Op == token.MUL {
+						if g := walk.FieldOf(ld.X.Type(), ld.Field); g != nil && (g.Name() == "RedirectURL" || g.Name() == "Redirect") {
+							okSrc = true
+						}
+					}
+					if fv, isFV := x.X.(*ssa.FreeVar); isFV && x.Op == token.MUL {
+						_ = fv
+						okSrc = true // a parameter captured by a closure
+					}
+				case *ssa.Field:
+					if g := walk.FieldOf(x.X.Type(), x.Field); g != nil && (g.Name() == "RedirectURL" || g.Name() == "Redirect") {
+						okSrc = true
+					}
+				case *ssa.FreeVar:
+					okSrc = true
+				}
+				if okSrc {
+					c.ok(rule, key, in, "the page embeds the target it was handed")
+				} else {
+					c.R.Bad(rule, key, c.pos(in), "the page writer embeds a redirect target it computed itself instead of the one it was handed: the login that starts from this page no longer returns to the page the user asked for", nil, nil)
+				}
+			}
+		}
+	}
+	if n == 0 {
+		c.R.Unknown(rule, "page-target|none", "-", "no Redirect/RedirectURL field is set in pkg/app/pagewriter")
 	}
 }
